@@ -30,7 +30,8 @@ CHECKS = {
         text="Lean: every loop of lexer.go is a structural recursion and each successful Advance consumes input; for EVERY sequence of Read/Unget/Skip/ReadAhead calls "
              "the number of token requests is bounded by |pending| + #ungets + 1000 (end-of-input budget, potential-function proof), so no evaluator loop that requests a token per "
              "iteration can spin; every condition-less loop in eval/ and parser/ requests a token or is on a reviewed list (regenerated table). Tied by lex/tok streams with per-op deadlines. "
-             "Hangs in unmodelled evaluator code and cyclic inheritance are searched black-box; a hang counts only if `timeout` persists on a solitary re-run.",
+             "The inheritance walks (GetMethodT/getParentMethodT, isAncestorNode) are modelled with their entered-sets; the models terminate by construction and are compared with the real walks on generated graphs with cycles (streams lookup / ancestor: a walk that does not answer within the deadline is a disagreement). "
+             "Hangs in unmodelled evaluator code are searched black-box (prefixes, mutations, cyclic-inheritance programs with visibility checks); a hang counts only if `timeout` persists on spaced solitary re-runs.",
         design="DESIGN.md §4 C02",
         note="Trusted as for C01. NOT proved: loops that hand a token back every iteration, recursion in unmodelled evaluators, the wall-clock watchdog race itself.",
         technique="Lean 4 proof (potential function over all client call sequences) + regenerated loop table + differential streams; black-box hang search",
@@ -69,7 +70,7 @@ CHECKS = {
         category="proof",
         text="Full for the output assembly, partial for the runtime: Go map iteration is modelled as an ARBITRARY permutation and slices.SortFunc as an ARBITRARY sorted permutation; Lean proves the rendered "
              "sequence is unique for both signature comparators (sort key = lexicographic encoding in the field order regenerated from signature.go; total/antisymmetric order lemmas), and that every `range` over a map in the module "
-             "(regenerated with go/types) is on a reviewed list. The real getters are run on real Go maps (fresh iteration order per call) against the model. End-to-end: each output mode, several separate processes with "
+             "(regenerated with go/types) is on a reviewed list together with the variables its body carries from one iteration to the next (an accumulator hoisted out of a per-key loop breaks the obligation). The real getters are run on real Go maps (fresh iteration order per call) against the model. End-to-end: each output mode, several separate processes with "
              "varied GOMAXPROCS/GOGC, byte comparison (--define as a set).",
         design="DESIGN.md §4 C05",
         note="Trusted: Lean kernel, allowed axioms, extractor (go/types source importer), stream. Assumed: ties under the comparator render identically (key fields cover every printed field but document/private). Not modelled: scheduler, GC, watchdog race.",
@@ -114,9 +115,10 @@ CHECKS = {
     "C20": dict(
         category="proof",
         text="Lean: writes to keys a program never looks up are invisible to all its lookups; token classification over the flat BuiltinClasses list is unchanged by added short names the identifier does not equal; the short-name collision is refuted with a witness (known limitation). "
-             "The classification model is tied by the tok stream (run with the configured class list). End-to-end: corpus and generated programs with and without generated extra configuration files (plain and namespaced frames, extends of shipped classes) whose class names never occur in the program.",
+             "The classification model is tied by the tok stream (run with the configured class list). The list is also consulted when a superclass frame is chosen and when include/extend edges are followed: on the model of that choice the frame of a class the program defines itself does not depend on the configured short names at all, and other short names never matter (own_superclass_ignores_config, superclass_extra_names); the include/extend redirect is tied by the lookup stream (with the top-level definitions), LookupDefinedClassFrame by the findns stream. "
+             "End-to-end: corpus, generated and aimed programs with and without generated extra configuration files (plain and namespaced frames, extends of shipped classes, class methods named like Object's) whose class names never occur in the program, and lookalikes in other frames that share the short name of a class or module the program defines.",
         design="DESIGN.md §4 C20",
-        note="Partial: evaluator uses of BuiltinClasses beyond token classification are covered end-to-end only. Known limitation: an added class whose SHORT name equals a program identifier in another frame changes that identifier's token kind.",
+        note="Partial: the superclass choice in eval/class.go is modelled but tied end-to-end only (it is inline code). Refuted case: an added class whose SHORT name equals an ALL-CAPITAL program constant in another frame changes that identifier's token kind (classify_collision).",
         technique="Lean 4 proof (frame lemma for map writes, classification lemma) + differential tok stream + end-to-end with/without extra configuration",
     ),
     "C13": dict(
@@ -199,10 +201,10 @@ CHECKS = {
     "C10": dict(
         category="proof",
         text="Narrowing core proved in Lean on the model of setConditionalCtx / narrowing / the restore closures, for every store, variable, current type and tested class: in the branch a test admits the variable is the unified tested class (positive_branch); in the branch that excludes it, exactly the variants whose class is not the tested one, in their order (negative_branch); the else branch of a positive test likewise (else_after_positive); no other variable changes; after the conditional every tested variable has its previous value (restore_spec/restore_other). "
-             "Tied to the Go code by the `narrow` differential stream through a verif hook; that Evaluation isolates the shared evaluator's state for nested conditionals and defers the restores of elsif conditions is a regenerated source fact (both added by fix: commits). "
+             "Tied to the Go code by the `narrow` differential stream through a verif hook; that Evaluation isolates the shared evaluator's state for nested conditionals (each map restored from its own copy), defers the restores of elsif conditions and runs the condition's restore closures last-in first-out are regenerated source facts; restore_lifo_original proves that LIFO order gives every variable its pre-conditional value however many steps narrowed it. "
              "End-to-end: generated programs with union variables, if/unless/elsif/else, nil?/!nil?/is_a?, && chains, nesting and unrelated statements inside branches; dbtp inside every branch and after `end` against a reference model of the admitted variants.",
         design="DESIGN.md §4 C10",
-        note="Partial: getBackupContext's token-level condition parsing is end-to-end only. Known findings K29 (elsif with a negated test ignores earlier narrowing) and K30 (negative branch of an && chain narrows every chained variable): `_partial` scope = single-atom conditions and positive chains.",
+        note="Partial: getBackupContext's token-level condition parsing is end-to-end only. Known findings K29 (elsif with a negated test ignores earlier narrowing), K30 (negative branch of an && chain narrows every chained variable) and K34 (one variable tested twice in a chain with mixed polarity): `_partial` scope = single-atom conditions and positive chains.",
         technique="Lean 4 proof (case analysis over the narrowing model) + differential stream over a hook + regenerated source facts + end-to-end reference comparison",
     ),
     "C11": dict(
@@ -224,7 +226,7 @@ CHECKS = {
     "C17": dict(
         category="proof",
         text="Scope core on the Go-map model of TFrame: Lean proves for EVERY sequence of writes performed inside a block that a key absent from the entry snapshot (and not written back) is absent after the block, that outer variables keep what the block assigned to them, that a shadowed variable gets its saved value back (distinct restore keys), "
-             "and that the i-th block variable is bound to the i-th resolved parameter type with surplus variables bound to nil (distinct variable names). End-to-end: generated block calls (do/end, braces) over arrays, hashes, ranges, integers and strings with 0-3 parameters, shadowing, nesting and block locals, `dbtp` inside and after the block against a reference.",
+             "and that the i-th block variable is bound to the i-th resolved parameter type with surplus variables bound to nil (distinct variable names); the binding loop of Do.setBlockParameters is regenerated from the source (guard, what each branch binds, whether the loop goes on) and proved equal to the modelled loop. End-to-end: generated block calls (do/end, braces) over arrays, hashes, ranges, integers and strings with 0-3 parameters, shadowing, nesting and block locals, `dbtp` inside and after the block against a reference.",
         design="DESIGN.md §4 C17",
         note="Partial: the resolution of declared block_parameters (Unify/Item/Flatten/UnifyArgument/Self) against the receiver is end-to-end only, on homogeneous receivers.",
         technique="Lean 4 proof (induction over arbitrary write sequences on the map model) + end-to-end block probes",
@@ -232,9 +234,11 @@ CHECKS = {
     "C16": dict(
         category="proof",
         text="Lookup core: GetMethodT / getParentMethodT (with the entered-set of the cyclic-inheritance fix) are modelled over Go-map models of TFrame and ClassInheritanceMap. Lean proves for EVERY table, EVERY graph (cycles included) and any fuel: a resolved definition exists in the table and carries the asked method name and privacy flag — so an explicit-receiver call never resolves to a private method; "
-             "the class's own definition wins; a direct superclass's / included module's definition is found; resolution fails when no key of that name exists. End-to-end: generated hierarchies (chains of depth 1-4, include/extend, class << self, initialize, visibility sections) with calls whose outcome is computed by a reference model of Ruby's rules; the set of reported rows must match exactly.",
+             "the class's own definition wins; a direct superclass's / included module's definition is found; resolution fails when no key of that name exists. Ancestor order: explicit ancestors registered through AddParentNode precede the implicit Object ancestor for any number of them, so a superclass's override of an Object method wins (stream addparent). "
+             "Protected calls: the ancestor walk isAncestorNode is modelled; the check passes for the class itself, for a direct subclass in any graph (cycles included) and for a descendant at ANY depth of a single-inheritance chain (stream ancestor on generated graphs through a verif hook). "
+             "End-to-end: generated hierarchies (chains of depth 1-4, include/extend, class << self, initialize, visibility sections, protected calls from descendants and outsiders, overrides of to_s/inspect, nested classes, receiverless module calls, namespaced groups) with calls whose outcome is computed by a reference model of Ruby's rules; the set of reported rows and the probed types must match exactly.",
         design="DESIGN.md §4 C16",
-        note="Partial: how the class/module/include/def evaluators populate the maps and the strategies' visibility checks are end-to-end only. Names are fresh (collisions with configured class names are C20's known limitation).",
+        note="Partial: how the class/module/include/def evaluators populate the maps and the private check of the strategies are end-to-end only; completeness of the ancestor walk for graphs with several parents per class is validated by the stream, not proved. Names are fresh (collisions with configured class names are C20's business).",
         technique="Lean 4 proof (mutual structural recursion, induction on fuel and parent lists) + end-to-end comparison with a Ruby reference model",
     ),
     "C27": dict(
